@@ -420,36 +420,69 @@ fn listener_part(case: &Case) -> Result<(), (String, String)> {
     r
 }
 
-/// (c) a status response far larger than the socket buffers, requested by a client that does not read: the
-/// deadline still ends the connection (the client, reading afterwards, must hit the end of stream before
-/// the end of the response)
+/// (c) a status response of 24 MiB requested by a client that does not read it: the handler is blocked in a
+/// write when the deadline passes, and the server must still close its end of the connection by then. The
+/// server's end is observed directly (state of its socket in /proc/net/tcp), so the verdict does not depend on
+/// how much the socket buffers of this machine absorb. A control client that *does* read first shows that the
+/// instance produces the response promptly here; otherwise the scenario is inconclusive.
 fn unread_response_part(case: &Case) -> Result<(), (String, String)> {
     const SIZE: usize = 24 << 20;
-    let inst = start_passage_with(case, Some("x".repeat(SIZE))).map_err(|e| ("inconclusive".to_string(), e))?;
+    let inc = |e: String| ("inconclusive".to_string(), e);
+    let inst = start_passage_with(case, Some("x".repeat(SIZE))).map_err(inc)?;
     let port = inst.port;
     let timeout = Duration::from_secs(u64::from(case.timeout_s));
-    let mut c = NetClient::connect(port).map_err(|e| ("inconclusive".to_string(), e.to_string()))?;
+    use std::io::Read;
+    // control: a reading client gets the whole response quickly
+    {
+        let mut c = NetClient::connect(port).map_err(|e| inc(e.to_string()))?;
+        let t0 = Instant::now();
+        let _ = c.send(&Pkt::Handshake { protocol: 770, host: "big.example.org".into(), port: 25565, next: 1 });
+        let _ = c.send(&Pkt::StatusRequest);
+        let _ = c.stream.set_read_timeout(Some(Duration::from_millis(900)));
+        let mut buf = vec![0u8; 1 << 20];
+        let mut total = 0usize;
+        while total < SIZE {
+            match c.stream.read(&mut buf) {
+                Ok(0) | Err(_) => break,
+                Ok(n) => total += n,
+            }
+            if t0.elapsed() > Duration::from_millis(900) {
+                break;
+            }
+        }
+        if total < SIZE {
+            return Err(inc(format!("control: a reading client received only {total} of {SIZE} bytes within 0.9 s (machine too slow for this scenario)")));
+        }
+    }
+    let mut c = NetClient::connect(port).map_err(|e| inc(e.to_string()))?;
+    let me = c.local_addr().port();
     let _ = c.send(&Pkt::Handshake { protocol: 770, host: "big.example.org".into(), port: 25565, next: 1 });
     let _ = c.send(&Pkt::StatusRequest);
-    // do not read until the deadline has passed
-    std::thread::sleep(timeout + SLACK);
-    let t0 = Instant::now();
-    let mut total = 0usize;
-    let mut buf = vec![0u8; 1 << 20];
-    let _ = c.stream.set_read_timeout(Some(Duration::from_secs(3)));
-    use std::io::Read;
-    loop {
-        match c.stream.read(&mut buf) {
-            Ok(0) => break,
-            Ok(n) => total += n,
-            Err(e) if matches!(e.kind(), std::io::ErrorKind::WouldBlock | std::io::ErrorKind::TimedOut) => {
-                return Err(("served-past-the-deadline".into(), format!("timeout {timeout:?}: {:?} after the deadline the connection of a client that did not read its {SIZE}-byte status response was still open ({total} bytes received)", t0.elapsed())));
+    if net::server_side_state(port, me) != Some(1) {
+        return Err(inc("the server's end of the connection is not visible in /proc/net/tcp".into()));
+    }
+    // do not read; watch the server's end until the deadline (+ slack) has passed
+    let t0 = c.connected_at;
+    let mut closed_after = None;
+    while t0.elapsed() < timeout + SLACK {
+        if net::server_side_state(port, me) != Some(1) {
+            closed_after = Some(t0.elapsed());
+            break;
+        }
+        std::thread::sleep(Duration::from_millis(20));
+    }
+    if closed_after.is_none() {
+        // how much did it serve meanwhile?
+        let _ = c.stream.set_read_timeout(Some(Duration::from_millis(200)));
+        let mut buf = vec![0u8; 1 << 20];
+        let mut total = 0usize;
+        while let Ok(n) = c.stream.read(&mut buf) {
+            if n == 0 {
+                break;
             }
-            Err(_) => break,
+            total += n;
         }
-        if total >= SIZE {
-            return Err(("served-past-the-deadline".into(), format!("timeout {timeout:?}: a client that started reading {:?} after connecting still received the complete {SIZE}-byte status response", timeout + SLACK)));
-        }
+        return Err(("served-past-the-deadline".into(), format!("timeout {timeout:?}: {:?} after connecting, the server's end of the connection of a client that does not read its {SIZE}-byte status response is still established ({total} bytes were readable)", t0.elapsed())));
     }
     Ok(())
 }
@@ -461,6 +494,19 @@ fn decide(case: &Case, info: &mut CaseInfo) -> Verdict {
         Err(e) => return Verdict::Inconclusive(format!("instance did not start: {e} (two attempts)")),
     };
     let port = inst.port;
+    // real-time verdicts need a responsive machine: a plain status exchange normally takes a millisecond or two
+    let probe = (0..2)
+        .filter_map(|_| {
+            let mut c = NetClient::connect(port).ok()?;
+            let t0 = Instant::now();
+            c.status_exchange("probe.example.org", Duration::from_secs(2)).ok()?;
+            Some(t0.elapsed())
+        })
+        .min();
+    match probe {
+        Some(d) if d <= Duration::from_millis(400) => {}
+        other => return Verdict::Inconclusive(format!("the instance answers a plain status exchange in {other:?}: machine too loaded for real-time verdicts")),
+    }
     if let Some(plan) = &case.layers {
         info.class("configuration_through_layers");
         info.class(format!("secret_layer:{:?}", plan.secret));
@@ -587,7 +633,17 @@ impl Check for C14 {
             prop::bool::weighted(0.3),
             proptest::option::weighted(0.5, crate::layers::plan_strategy()),
         )
-            .prop_map(|(max_len, expiry, timeout_s, secret, scenarios, listener_timeout_ms, unread_response, layers)| Case { max_len, expiry, timeout_s, secret, scenarios, listener_timeout_ms, unread_response, layers })
+            .prop_map(|(mut max_len, mut expiry, timeout_s, secret, mut scenarios, listener_timeout_ms, unread_response, layers)| {
+                // an instance whose secret travels through the layers is always asked to validate a cookie with it
+                // (a login needs frames of up to 261 bytes, crafted ages need an expiry with a margin)
+                if layers.is_some() {
+                    max_len = max_len.max(700);
+                    expiry = expiry.max(30);
+                    scenarios.push(Scn::Cookie { inside: true, other_secret: false });
+                    scenarios.push(Scn::Cookie { inside: true, other_secret: true });
+                }
+                Case { max_len, expiry, timeout_s, secret, scenarios, listener_timeout_ms, unread_response, layers }
+            })
             .boxed()
     }
     fn cases(&self, tier: Tier) -> u64 {
@@ -615,7 +671,8 @@ impl Check for C14 {
     }
     fn assumptions(&self) -> Vec<String> {
         vec![
-            "real sockets and real time: close must happen within timeout + 1.5 s after connect; every failing scenario is repeated alone and only a confirmed failure is a violation, otherwise the case is inconclusive".into(),
+            "real sockets and real time: close must happen within timeout + 1.5 s after connect; every failing scenario is repeated alone and only a confirmed failure is a violation, otherwise the case is inconclusive; a case whose instance needs more than 0.4 s for a plain status exchange is inconclusive as a whole".into(),
+            "the unread-response scenario observes the server's end of the connection in /proc/net/tcp (it must have left ESTABLISHED by timeout + 1.5 s), after a control client that reads has received the whole 24 MiB within 0.9 s; nothing is concluded from how many bytes the socket buffers of the machine absorb".into(),
             "cookie ages keep a margin of 10 % (at least 3 s) from the configured expiry, so wall-clock progress cannot flip the expected answer".into(),
             "all passage::start instances of the run are stopped at the end by one SIGINT to the own process (tokio's ctrl-c handler is installed by then)".into(),
         ]
